@@ -1413,8 +1413,21 @@ where
         .iter()
         .enumerate()
         .map(|(idx, x)| {
-            let username = demangle_toml_string(x["username"].to_string());
-            let password = demangle_toml_string(x["password"].to_string());
+            // the values are TOML strings: take them as the TOML parser decoded them
+            let field = |name: &str| {
+                x.get(name)
+                    .and_then(Item::as_str)
+                    .map(String::from)
+                    .ok_or_else(|| {
+                        serde::de::Error::custom(format!(
+                            "Client #{}: {} must be a string",
+                            idx + 1,
+                            name
+                        ))
+                    })
+            };
+            let username = field("username")?;
+            let password = field("password")?;
 
             if username.is_empty() {
                 return Err(serde::de::Error::custom(format!(
@@ -1511,6 +1524,3 @@ where
     Ok(Some(rules::RulesEngine::from_config(rules_config)))
 }
 
-fn demangle_toml_string(x: String) -> String {
-    x.replace('"', "").trim().to_string()
-}
